@@ -617,3 +617,6 @@ def workload(ctx):
     ctx.floor("function_calls", 2000)
     ctx.floor("roundtrip_evals", 2000)
     ctx.floor("unlisted:3+", 300)
+
+
+RULE = RULE + '  Later additions: one object in a loose and a tight context; refused imports before every judged import (probe comparisons, no stray names).'
